@@ -211,8 +211,8 @@ impl Prop for C17 {
   }
   fn params(&self, tier: Tier) -> Params {
     match tier {
-      Tier::Quick => Params { cases: 300_000, tape_len: 700, workers: 14, stack_mb: 8, worker_timeout_s: 600 },
-      Tier::Thorough => Params { cases: 1_000_000, tape_len: 6000, workers: 16, stack_mb: 8, worker_timeout_s: 3 * 3600 },
+      Tier::Quick => Params { cases: 300_000, tape_len: 700, workers: 14, stack_mb: 8, worker_timeout_s: 600, shrink_iters: 4000 },
+      Tier::Thorough => Params { cases: 1_000_000, tape_len: 6000, workers: 16, stack_mb: 8, worker_timeout_s: 3 * 3600, shrink_iters: 4000 },
     }
   }
 
